@@ -408,3 +408,114 @@ impl Spec {
         })
     }
 }
+
+// ---------------------------------------------------------------------------------------------
+// full (replayable) serialisation
+
+fn dd_name(d: Dd) -> &'static str {
+    match d {
+        Dd::None => "none",
+        Dd::Sig32 => "sig32",
+        Dd::NoSig32 => "nosig32",
+        Dd::Sig64 => "sig64",
+        Dd::NoSig64 => "nosig64",
+    }
+}
+fn dd_from(s: &str) -> Dd {
+    match s {
+        "sig32" => Dd::Sig32,
+        "nosig32" => Dd::NoSig32,
+        "sig64" => Dd::Sig64,
+        "nosig64" => Dd::NoSig64,
+        _ => Dd::None,
+    }
+}
+fn big(b: &[u8]) -> Value {
+    if b.len() > 256 && b.iter().all(|&c| c == b[0]) {
+        json!({"rep": b[0], "count": b.len()})
+    } else {
+        json!(crate::util::hex(b))
+    }
+}
+fn unbig(v: &Value) -> Vec<u8> {
+    if let Some(s) = v.as_str() {
+        crate::util::unhex(s)
+    } else {
+        vec![v["rep"].as_u64().unwrap_or(0) as u8; v["count"].as_u64().unwrap_or(0) as usize]
+    }
+}
+impl ESpec {
+    pub fn to_json(&self) -> Value {
+        let enc = match &self.enc {
+            Enc::None => json!(null),
+            Enc::ZipCrypto { pw, infozip } => json!({"zipcrypto": crate::util::hex(pw), "infozip": infozip}),
+            Enc::Aes { version, strength, pw, salt_seed } => json!({"aes": crate::util::hex(pw), "version": version, "strength": strength, "salt_seed": salt_seed}),
+        };
+        json!({
+            "name": crate::util::hex(&self.name), "utf8": self.utf8, "method": self.method, "content": big(&self.content),
+            "raw_payload": self.raw_payload.as_ref().map(|p| crate::util::hex(p)), "dd": dd_name(self.dd),
+            "zip64_central": self.zip64_central, "zip64_local": self.zip64_local, "zip64_after": self.zip64_after,
+            "local_extra": crate::util::hex(&self.local_extra), "central_extra": crate::util::hex(&self.central_extra),
+            "comment": crate::util::hex(&self.comment), "made_by": self.made_by, "ext_attr": self.ext_attr,
+            "time": self.time, "date": self.date, "enc": enc, "gap_before": self.gap_before, "extra_flags": self.extra_flags,
+            "crc_override": self.crc_override,
+        })
+    }
+    pub fn from_json(v: &Value) -> ESpec {
+        let h = |k: &str| crate::util::unhex(v[k].as_str().unwrap_or(""));
+        let enc = if let Some(p) = v["enc"]["zipcrypto"].as_str() {
+            Enc::ZipCrypto { pw: crate::util::unhex(p), infozip: v["enc"]["infozip"].as_bool().unwrap_or(false) }
+        } else if let Some(p) = v["enc"]["aes"].as_str() {
+            Enc::Aes {
+                version: v["enc"]["version"].as_u64().unwrap_or(2) as u16,
+                strength: v["enc"]["strength"].as_u64().unwrap_or(3) as u8,
+                pw: crate::util::unhex(p),
+                salt_seed: v["enc"]["salt_seed"].as_u64().unwrap_or(0) as u8,
+            }
+        } else {
+            Enc::None
+        };
+        ESpec {
+            name: h("name"),
+            utf8: v["utf8"].as_bool().unwrap_or(false),
+            method: v["method"].as_u64().unwrap_or(0) as u16,
+            content: unbig(&v["content"]),
+            raw_payload: v["raw_payload"].as_str().map(crate::util::unhex),
+            dd: dd_from(v["dd"].as_str().unwrap_or("none")),
+            zip64_central: v["zip64_central"].as_u64().unwrap_or(0) as u8,
+            zip64_local: v["zip64_local"].as_bool().unwrap_or(false),
+            zip64_after: v["zip64_after"].as_bool().unwrap_or(false),
+            local_extra: h("local_extra"),
+            central_extra: h("central_extra"),
+            comment: h("comment"),
+            made_by: v["made_by"].as_u64().unwrap_or(0) as u16,
+            ext_attr: v["ext_attr"].as_u64().unwrap_or(0) as u32,
+            time: v["time"].as_u64().unwrap_or(0) as u16,
+            date: v["date"].as_u64().unwrap_or(0) as u16,
+            enc,
+            gap_before: v["gap_before"].as_u64().unwrap_or(0) as usize,
+            extra_flags: v["extra_flags"].as_u64().unwrap_or(0) as u16,
+            crc_override: v["crc_override"].as_u64().map(|x| x as u32),
+        }
+    }
+}
+impl Spec {
+    pub fn to_json(&self) -> Value {
+        json!({
+            "prefix": big(&self.prefix), "entries": self.entries.iter().map(|e| e.to_json()).collect::<Vec<_>>(),
+            "comment": big(&self.comment), "trailing": big(&self.trailing), "force_zip64_eocd": self.force_zip64_eocd,
+            "cd_order": self.cd_order, "gap_before_cd": self.gap_before_cd,
+        })
+    }
+    pub fn from_json(v: &Value) -> Spec {
+        Spec {
+            prefix: unbig(&v["prefix"]),
+            entries: v["entries"].as_array().map(|a| a.iter().map(ESpec::from_json).collect()).unwrap_or_default(),
+            comment: unbig(&v["comment"]),
+            trailing: unbig(&v["trailing"]),
+            force_zip64_eocd: v["force_zip64_eocd"].as_bool().unwrap_or(false),
+            cd_order: v["cd_order"].as_array().map(|a| a.iter().map(|x| x.as_u64().unwrap_or(0) as usize).collect()),
+            gap_before_cd: v["gap_before_cd"].as_u64().unwrap_or(0) as usize,
+        }
+    }
+}
